@@ -70,6 +70,19 @@ def cases(tier, seed):
                 for i in range(n):
                     for j in range(n):
                         out.append(dict(base, which="hess", i=i, j=j, mag="drop"))
+    # many columns (20+ internal variables incl. slacks): every gradient column, every Jacobian entry of the band, Hessian band
+    for nn in ((30,) if tier == "quick" else (20, 30, 50)):
+        spec = S.banded_qp(nn, "mixed", 0)
+        m = len(spec["rows"])
+        base = {"large": nn, "x0i": 0, "si": 0, "tier": tier, "ti": -1}
+        out.append(dict(base, which="none"))
+        for j in range(nn):
+            out.append(dict(base, which="grad", i=0, j=j, mag=30.0))
+            for i in (j - 1, j, j + 1):
+                if 0 <= i < nn:
+                    out.append(dict(base, which="hess", i=i, j=j, mag=30.0))
+            for i in range(m):
+                out.append(dict(base, which="jac", i=i, j=j, mag=30.0))
     return out
 
 
@@ -120,11 +133,18 @@ def run_case(case):
     from pgfmc.drive.problems import UserProblem
     from pgfmc.drive.run import make_params, run_solve, RecSolver
 
-    vk, obj, rows = table(case["tier"])[case["ti"]]
-    n, m = len(vk), len(rows)
-    spec = S.mk(n, obj, rows, vk, x0_idx=case["x0i"], tight=False)
-    sc = S.scalings(n, m, [0.625, -1.25, 0.75][:n])[case["si"]]
-    y0 = [0.75, -1.25][:m]
+    if case.get("large"):
+        spec = S.banded_qp(case["large"], "mixed", 0)
+        n, m = spec["n"], len(spec["rows"])
+        spec = dict(spec, x0=[0.125 * ((k % 5) - 2) for k in range(n)])
+        sc = None
+        y0 = [0.75 if k % 2 == 0 else -1.25 for k in range(m)]
+    else:
+        vk, obj, rows = table(case["tier"])[case["ti"]]
+        n, m = len(vk), len(rows)
+        spec = S.mk(n, obj, rows, vk, x0_idx=case["x0i"], tight=False)
+        sc = S.scalings(n, m, [0.625, -1.25, 0.75][:n])[case["si"]]
+        y0 = [0.75, -1.25][:m]
     prob = UserProblem(spec)
     F = O.Funcs(spec)
     vw = np.array(sc["vw"], dtype=int) if sc else np.zeros(n, dtype=int)
